@@ -1131,8 +1131,15 @@ package gmars
 // channel sends are treated as skips (a send on the open token channel neither panics nor changes
 // anything the sender reads).
 
+// token streams are finite and end with a terminal token (EOF or Error); NextToken is only called before
+// that token has been delivered and then succeeds (assumed protocol of lexer / bufTokenReader streams)
+//@ ghost tokenReader.left Int
+//@ ghost tokenReader.ended Bool
+//@ pure isTerminal(t int) = t == tokEOF || t == tokError
 //@ extern iface:tokenReader.NextToken
-//@   modifies nothing
+//@   modifies ghost self.left, ghost self.ended
+//@   ensures self.left >= 0 && (!old(self.ended) ==> result.1 == nil && self.left < old(self.left) && self.ended == isTerminal(result.0.typ))
+//@   ensures old(self.ended) ==> self.ended && self.left == old(self.left)
 
 //@ func (token).IsOp
 //@   panics [C05]
@@ -1297,56 +1304,61 @@ package gmars
 // (the line labels of the block being collected must not share their backing array with the label buffer,
 // which the body's state functions keep appending to)
 //@ pure forOK(f *forExpander) = f != nil && f.lex != nil && (len(f.forLineLabels) > 0 ==> arr(f.forLineLabels) != arr(f.labelBuf))
+//@      && f.lex.left >= 0 && (f.atEOF == f.lex.ended) && (f.atEOF ==> isTerminal(f.nextToken.typ))
+// progress measure of the expander's input: it decreases with every call of next() made before the terminal token
+//@ pure forLeft(f *forExpander) = f.lex.left + ite(f.atEOF, 0, 1)
 //@ pure forBlockSame(f *forExpander) = f.forCountLabel == old(f.forCountLabel) && f.forCount == old(f.forCount) && f.forLineLabels == old(f.forLineLabels)
 //@      && (forall k :: 0 <= k && k < len(f.forLineLabels) ==> f.forLineLabels[k] == old(f.forLineLabels[k]))
 //@ func (*forExpander).next
 //@   panics [C05]
 //@   requires forOK(p)
-//@   modifies p.atEOF, p.nextToken
+//@   modifies p.atEOF, p.nextToken, ghost p.lex.*
 //@   ensures forOK(p)
+//@   ensures [C05] !old(p.atEOF) ==> forLeft(p) < old(forLeft(p))
+//@   ensures [C05] old(p.atEOF) ==> forLeft(p) == old(forLeft(p)) && p.nextToken == old(p.nextToken)
 //@ func (*forExpander).emitConsume
 //@   panics [C05]
 //@   requires forOK(f)
-//@   modifies f.atEOF, f.nextToken, chan f.tokens
+//@   modifies f.atEOF, f.nextToken, chan f.tokens, ghost f.lex.*
 //@   ensures forOK(f)
 //@ func forLine
 //@   panics [C05]
 //@   requires forOK(f)
-//@   modifies f.*, f.labelBuf[*], f.exprBuf[*], f.forContent[*], chan f.tokens
+//@   modifies f.*, f.labelBuf[*], f.exprBuf[*], f.forContent[*], chan f.tokens, ghost f.lex.*
 //@   ensures forOK(f)
 //@ func forConsumeLabels
 //@   panics [C05]
 //@   requires forOK(f)
-//@   modifies f.*, f.labelBuf[*], f.exprBuf[*], f.forContent[*], chan f.tokens
+//@   modifies f.*, f.labelBuf[*], f.exprBuf[*], f.forContent[*], chan f.tokens, ghost f.lex.*
 //@   ensures forOK(f)
 //@ func forConsumeEmitLine
 //@   panics [C05]
 //@   requires forOK(f)
-//@   modifies f.*, f.labelBuf[*], f.exprBuf[*], f.forContent[*], chan f.tokens
+//@   modifies f.*, f.labelBuf[*], f.exprBuf[*], f.forContent[*], chan f.tokens, ghost f.lex.*
 //@   ensures forOK(f)
 //@ func forConsumeExpression
 //@   panics [C05]
 //@   requires forOK(f)
-//@   modifies f.*, f.labelBuf[*], f.exprBuf[*], f.forContent[*], chan f.tokens
+//@   modifies f.*, f.labelBuf[*], f.exprBuf[*], f.forContent[*], chan f.tokens, ghost f.lex.*
 //@   ensures forOK(f)
 //@ func forInnerLine
 //@   panics [C05][C08]
 //@   requires forOK(f)
-//@   modifies f.*, f.labelBuf[*], f.exprBuf[*], f.forContent[*], chan f.tokens
+//@   modifies f.*, f.labelBuf[*], f.exprBuf[*], f.forContent[*], chan f.tokens, ghost f.lex.*
 //@   ensures forOK(f)
 // the block header (counter, count, line labels) is not disturbed while the body is collected
 //@   ensures [C08] forBlockSame(f)
 //@ func forInnerEmitConsumeLine
 //@   panics [C05][C08]
 //@   requires forOK(f)
-//@   modifies f.*, f.labelBuf[*], f.exprBuf[*], f.forContent[*], chan f.tokens
+//@   modifies f.*, f.labelBuf[*], f.exprBuf[*], f.forContent[*], chan f.tokens, ghost f.lex.*
 //@   ensures forOK(f)
 // the block header (counter, count, line labels) is not disturbed while the body is collected
 //@   ensures [C08] forBlockSame(f)
 //@ func forWriteLabelsEmitConsumeLine
 //@   panics [C05]
 //@   requires forOK(f)
-//@   modifies f.*, f.labelBuf[*], f.exprBuf[*], f.forContent[*], chan f.tokens
+//@   modifies f.*, f.labelBuf[*], f.exprBuf[*], f.forContent[*], chan f.tokens, ghost f.lex.*
 //@   ensures forOK(f)
 //@   loop 1
 //@     invariant forOK(f) && 0 - 1 <= rangeindex && rangeindex < len(f.labelBuf)
@@ -1354,7 +1366,7 @@ package gmars
 //@ func forInnerEmitLabels
 //@   panics [C05][C08]
 //@   requires forOK(f)
-//@   modifies f.*, f.labelBuf[*], f.exprBuf[*], f.forContent[*], chan f.tokens
+//@   modifies f.*, f.labelBuf[*], f.exprBuf[*], f.forContent[*], chan f.tokens, ghost f.lex.*
 //@   ensures forOK(f)
 // the block header (counter, count, line labels) is not disturbed while the body is collected
 //@   ensures [C08] forBlockSame(f)
@@ -1363,7 +1375,7 @@ package gmars
 //@ func forInnerLabels
 //@   panics [C05][C08]
 //@   requires forOK(f)
-//@   modifies f.*, f.labelBuf[*], f.exprBuf[*], f.forContent[*], chan f.tokens
+//@   modifies f.*, f.labelBuf[*], f.exprBuf[*], f.forContent[*], chan f.tokens, ghost f.lex.*
 //@   ensures forOK(f)
 // the block header (counter, count, line labels) is not disturbed while the body is collected
 //@   ensures [C08] forBlockSame(f)
@@ -1372,7 +1384,7 @@ package gmars
 //@ func forEmitConsumeStream
 //@   panics [C05]
 //@   requires forOK(f)
-//@   modifies f.atEOF, f.nextToken, chan f.tokens
+//@   modifies f.atEOF, f.nextToken, chan f.tokens, ghost f.lex.*
 //@   loop 1
 //@     invariant forOK(f)
 
@@ -1398,7 +1410,7 @@ package gmars
 //@ func forFor
 //@   panics [C05][C08]
 //@   requires forOK(f)
-//@   modifies f.*, f.labelBuf[*], f.exprBuf[*], f.forContent[*], f.forLineLabelsToWrite[*], chan f.tokens
+//@   modifies f.*, f.labelBuf[*], f.exprBuf[*], f.forContent[*], f.forLineLabelsToWrite[*], chan f.tokens, ghost f.lex.*
 //@   ensures forOK(f)
 // the last label before FOR is the counter, the earlier ones are line labels, renamed __for_<counter>_<label>
 //@   ensures [C08] result != nil && len(old(f.labelBuf)) > 0 ==> f.forCountLabel == old(f.labelBuf[len(f.labelBuf) - 1]) && len(f.forLineLabels) == old(len(f.labelBuf)) - 1
@@ -1422,10 +1434,12 @@ package gmars
 //@ func forRof
 //@   panics [C05][C08]
 //@   requires forOK(f) && f.forCount <= 2147483647
-//@   modifies f.atEOF, f.nextToken, chan f.tokens
+//@   modifies f.atEOF, f.nextToken, chan f.tokens, ghost f.lex.*
 //@   ensures forOK(f)
 //@   loop 1
 //@     invariant forOK(f)
+// skipping the rest of the ROF line consumes input on every iteration
+//@     decreases [C05] forLeft(f)
 //@   loop 2
 //@     invariant forOK(f) && 1 <= i && i <= 2147483648 && f.forCount == old(f.forCount)
 // copies are numbered 1, 2, ... forCount; every copy emits exactly one token per body token
